@@ -287,13 +287,14 @@ example : Accepts C02.Ex2.O (canon C02.Ex2.sheet) :=
 example : TidyL (render C02.Ex2.sheet) := by unfold TidyL; decide +kernel
 /-- every rule of the example sheet is written -/
 example : prune C02.Ex2.sheet = C02.Ex2.sheet := by simp only [prune]; rfl
-example : GapBlind C02.Ex2.O := ⟨fun _ _ _ _ _ _ _ => rfl, fun _ _ _ _ => rfl, fun _ _ _ _ _ _ _ => rfl, fun _ _ => rfl⟩
+example : GapBlind C02.Ex2.O :=
+  ⟨fun _ _ _ _ _ _ _ => rfl, fun _ _ _ _ => rfl, fun _ _ _ _ _ _ _ => rfl, fun _ _ _ => rfl, fun _ _ => rfl⟩
 
-/-- tests (evaluation), not theorems: every rule of the example sheet is written; its serialisation has 8 rules again;
+/-- tests (evaluation), not theorems: every rule of the example sheet is written; its serialisation has 10 rules again;
 an empty style rule and an `@media` rule around it are left out -/
 example : (pruneRules C02.Ex2.sheet.rules).toks = C02.Ex2.sheet.rules.toks := by decide +kernel
-example : (parseSheet C02.Ex2.O C02.Ex2.M (serialise C02.Ex2.sheet)).length = 8 := by decide +kernel
-example : serialise { rules := .cons (.media [] [] [identTok [0x61]] [] []
+example : (parseSheet C02.Ex2.O C02.Ex2.M (serialise C02.Ex2.sheet)).length = 10 := by decide +kernel
+example : serialise { rules := .cons (.media [] [] [identTok [0x61]] [] none []
     (.cons (.style { first := [identTok [0x62]] } {}) [] .nil)) [] .nil } = [eofTok] := by decide +kernel
 
 end CssVerif.C03
